@@ -49,4 +49,19 @@ PROPS = {
         "drops": ["timers (rule R7)", "the `_print_banner(..)` statement of solve"],
         "not_covered": ["byte equality across print targets", "header/footer contents", "print_configuration figures"],
     },
+    "C12": {
+        "units": ["qdldl_perm"],
+        "scope": "LDL engine: permutation validation (Ok <=> valid permutation, result is the inverse)",
+        "assumptions": ["p.len() < usize::MAX (a Vec<usize> cannot be that long)"],
+        "trusted_base": ["prelude/std_assumed.rs"],
+        "not_covered": ["P*A*P' = L*D*L' to backward-stable accuracy and solve accuracy (floating-point error analysis, outside the family)"],
+    },
+    "C17": {
+        "units": ["dsu"],
+        "scope": "narrow: the union-find mechanism of the clique-graph merge against an abstract partition (rep): root returns the representative, union merges exactly two classes, in_same_set decides class equality; memory safety and termination",
+        "assumptions": ["rank budget: union is covered for fewer than usize::MAX unions (ranks grow by at most one per union)",
+                        "DisjointSetUnion::new ((0..n).collect()) is outside the Verus subset and not under contract"],
+        "trusted_base": [],
+        "not_covered": ["supernode tree, post-order, merge strategies, clique tree validity (IndexSet/HashMap/sort_by closures, sdp feature)"],
+    },
 }
